@@ -57,7 +57,26 @@ inductive DE where
   | add (a b : DE)
   | mod (a b : DE)
   | range (a b : DE)
+  /-- `CASE WHEN c THEN t ELSE e END` (no ELSE = `null`) -/
+  | caseWhen (c t e : DE)
+  /-- `EXISTS { subquery }`: the subquery is number `id` of the line (run by the driver) -/
+  | existsSub (id : Nat)
+  /-- the one-element list `[e]` -/
+  | single (e : DE)
   deriving Repr, Inhabited
+
+/-- outcome of an `EXISTS { subquery }` for one row: it has rows or not, or it failed -/
+inductive ExOut where
+  | has (b : Bool)
+  | failed (e : DErr)
+  /-- pinned tree: the subquery failed and the evaluator answered `null` without telling anybody -/
+  | swallowed
+  deriving Repr
+
+/-- how the `EXISTS` subqueries of the line answer (parameters, row) -/
+abbrev ExFn := Nat → DRow → DRow → ExOut
+
+def noEx : ExFn := fun _ _ _ => .has false
 
 /-- aggregate functions of the fragment (`AggregateFunction`) -/
 inductive DAgg where
@@ -100,64 +119,80 @@ def cmpVals (a b : DV) (f : Ordering → Bool) : DV :=
   | .s (.bool x), .s (.bool y) => dbool (f (compare x y))
   | _, _ => dnull
 
-/-- `evaluate_expression_value` on the fragment -/
-def evalV (env row : DRow) : DE → DV
+/-- `evaluate_expression_value` on the fragment (`X` answers the EXISTS subqueries; a failed one
+    yields `null`) -/
+def evalV (X : ExFn) (env row : DRow) : DE → DV
   | .lit v => v
   | .var x => ((rowGet row x).orElse (fun _ => rowGet env x)).getD dnull
   | .toBoolean e =>
-    match evalV env row e with
+    match evalV X env row e with
     | .s (.bool b) => dbool b
     | .s (.str t) =>
       if asciiLower t == "true" then dbool true else if asciiLower t == "false" then dbool false else dnull
     | _ => dnull
   | .toInteger e =>
-    match evalV env row e with
+    match evalV X env row e with
     | .s (.int i) => dint i
     | .s (.str t) => (match parseI64 t with
                       | some i => dint i
                       | none => dnull)
     | _ => dnull
   | .not e =>
-    match evalV env row e with
+    match evalV X env row e with
     | .s (.bool b) => dbool (!b)
     | _ => dnull
-  | .isNull e => dbool (evalV env row e == dnull)
-  | .isNotNull e => dbool (evalV env row e != dnull)
+  | .isNull e => dbool (evalV X env row e == dnull)
+  | .isNotNull e => dbool (evalV X env row e != dnull)
   | .eq a b =>
-    match evalV env row a, evalV env row b with
+    match evalV X env row a, evalV X env row b with
     | .s .null, _ => dnull
     | _, .s .null => dnull
     | .s x, .s y => dbool (x == y)
     | x, y => dbool (x == y)
-  | .lt a b => cmpVals (evalV env row a) (evalV env row b) (· == .lt)
-  | .gt a b => cmpVals (evalV env row a) (evalV env row b) (· == .gt)
+  | .lt a b => cmpVals (evalV X env row a) (evalV X env row b) (· == .lt)
+  | .gt a b => cmpVals (evalV X env row a) (evalV X env row b) (· == .gt)
   | .and a b =>
-    match evalV env row a, evalV env row b with
+    match evalV X env row a, evalV X env row b with
     | .s (.bool false), _ => dbool false
     | _, .s (.bool false) => dbool false
     | .s (.bool true), .s (.bool true) => dbool true
     | _, _ => dnull
   | .or a b =>
-    match evalV env row a, evalV env row b with
+    match evalV X env row a, evalV X env row b with
     | .s (.bool true), _ => dbool true
     | _, .s (.bool true) => dbool true
     | .s (.bool false), .s (.bool false) => dbool false
     | _, _ => dnull
   | .add a b =>
-    match evalV env row a, evalV env row b with
+    match evalV X env row a, evalV X env row b with
     | .s (.int x), .s (.int y) => dint (x + y)
     | _, _ => dnull
   | .mod a b =>
-    match evalV env row a, evalV env row b with
+    match evalV X env row a, evalV X env row b with
     | .s (.int x), .s (.int y) => if y == 0 then dnull else dint (Int.tmod x y)
     | _, _ => dnull
   | .range a b =>
-    match evalV env row a, evalV env row b with
+    match evalV X env row a, evalV X env row b with
     | .s (.int x), .s (.int y) =>
       if x > y then .list [] else .list ((List.range (y - x + 1).toNat).map (fun (k : Nat) => .int (x + (k : Int))))
     | _, _ => dnull
+  | .caseWhen c t e =>
+    match evalV X env row c with
+    | .s (.bool true) => evalV X env row t
+    | _ => evalV X env row e
+  | .existsSub i =>
+    match X i env row with
+    | .has b => dbool b
+    | .failed _ => dnull
+    | .swallowed => dnull
+  | .single e =>
+    match evalV X env row e with
+    | .s v => .list [v]
+    | .list _ => dnull
 
-/-- `ensure_runtime_expression_compatible` on the fragment: arguments first, then the function's
+/-- `ensure_runtime_expression_compatible` on the fragment (the type checks look at the argument's
+    value; the harness only sends expressions whose checked arguments contain no EXISTS, so the
+    subqueries are not consulted here): arguments first, then the function's
     own check (`toBoolean`: Null/Bool/String; `toInteger`: Null/Int/String; `range`: the
     `Function(range)` collection check on the estimated length) -/
 def ensure (coll : String → Nat → Option DErr) (env row : DRow) : DE → Except DErr Unit
@@ -165,14 +200,14 @@ def ensure (coll : String → Nat → Option DErr) (env row : DRow) : DE → Exc
   | .var _ => .ok ()
   | .toBoolean e => do
     ensure coll env row e
-    match evalV env row e with
+    match evalV noEx env row e with
     | .s .null => .ok ()
     | .s (.bool _) => .ok ()
     | .s (.str _) => .ok ()
     | _ => .error .runtime
   | .toInteger e => do
     ensure coll env row e
-    match evalV env row e with
+    match evalV noEx env row e with
     | .s .null => .ok ()
     | .s (.int _) => .ok ()
     | .s (.str _) => .ok ()
@@ -190,17 +225,39 @@ def ensure (coll : String → Nat → Option DErr) (env row : DRow) : DE → Exc
   | .range a b => do
     ensure coll env row a
     ensure coll env row b
-    match evalV env row a, evalV env row b with
+    match evalV noEx env row a, evalV noEx env row b with
     | .s (.int x), .s (.int y) =>
       (match coll "Function(range)" (if x > y then 0 else (y - x + 1).toNat) with
        | some e => .error e
        | none => .ok ())
     | _, _ => .ok ()
+  | .caseWhen c t e => do ensure coll env row c; ensure coll env row t; ensure coll env row e
+  | .existsSub _ => .ok ()
+  | .single e => ensure coll env row e
 
-def deval (coll : String → Nat → Option DErr) (e : DE) (env row : DRow) : Except DErr DV :=
+/-- the first failure parked while `evaluate_expression_value` evaluates the expression (left to
+    right; `CASE` evaluates only the branch it takes) -/
+def parkV (X : ExFn) (env row : DRow) : DE → Option DErr
+  | .lit _ => none
+  | .var _ => none
+  | .toBoolean e | .toInteger e | .not e | .isNull e | .isNotNull e | .single e => parkV X env row e
+  | .eq a b | .lt a b | .gt a b | .and a b | .or a b | .add a b | .mod a b | .range a b =>
+    firstSome (parkV X env row a) (parkV X env row b)
+  | .caseWhen c t e =>
+    firstSome (parkV X env row c)
+      (match evalV X env row c with
+       | .s (.bool true) => parkV X env row t
+       | _ => parkV X env row e)
+  | .existsSub i =>
+    match X i env row with
+    | .has _ => none
+    | .failed e => some e
+    | .swallowed => none
+
+def deval (X : ExFn) (coll : String → Nat → Option DErr) (e : DE) (env row : DRow) : Except DErr DV :=
   match ensure coll env row e with
   | .error err => .error err
-  | .ok _ => .ok (evalV env row e)
+  | .ok _ => .ok (evalV X env row e)
 
 /-- `evaluator::order_compare` on the fragment: null last, ints / bools by value -/
 def dcmp : DV → DV → Ordering
@@ -220,47 +277,49 @@ def scalarOf : DV → DS
   | .list _ => .null
 
 /-- one aggregate over the rows of a group (projection_sort.rs, the closure's `match func`) -/
-def aggValue (coll : String → Nat → Option DErr) (env : DRow) (rows : List DRow) : DAgg → Except DErr DV
+def aggValue (X : ExFn) (coll : String → Nat → Option DErr) (env : DRow) (rows : List DRow) : DAgg → Except DErr DV
   | .countStar => .ok (dint rows.length)
-  | .count e => .ok (dint ((rows.map (fun r => evalV env r e)).filter (· != dnull)).length)
+  | .count e => .ok (dint ((rows.map (fun r => evalV X env r e)).filter (· != dnull)).length)
   | .collect e =>
-    let vs := (rows.map (fun r => evalV env r e)).filter (· != dnull)
+    let vs := (rows.map (fun r => evalV X env r e)).filter (· != dnull)
     match coll "Aggregate.collect" vs.length with
     | some err => .error err
     | none => .ok (.list (vs.map scalarOf))
   | .sum e =>
-    .ok (dint ((rows.map (fun r => evalV env r e)).foldl (fun acc v =>
+    .ok (dint ((rows.map (fun r => evalV X env r e)).foldl (fun acc v =>
       match v with
       | .s (.int i) => acc + i
       | _ => acc) 0))
   | .min e =>
-    .ok (((rows.map (fun r => evalV env r e)).filter (· != dnull)).foldl (fun acc v =>
+    .ok (((rows.map (fun r => evalV X env r e)).filter (· != dnull)).foldl (fun acc v =>
       match acc with
       | none => some v
       | some m => if dcmp v m == .lt then some v else some m) none |>.getD dnull)
   | .max e =>
-    .ok (((rows.map (fun r => evalV env r e)).filter (· != dnull)).foldl (fun acc v =>
+    .ok (((rows.map (fun r => evalV X env r e)).filter (· != dnull)).foldl (fun acc v =>
       match acc with
       | none => some v
       | some m => if dcmp v m == .lt then some m else some v) none |>.getD dnull)
 
 /-- the group's result row: the `group_by` columns (from the group's first row) then the aggregates -/
-def aggFinalD (coll : String → Nat → Option DErr) (groupBy : List String) (aggs : List (DAgg × String))
+def aggFinalD (X : ExFn) (coll : String → Nat → Option DErr) (groupBy : List String) (aggs : List (DAgg × String))
     (env : DRow) (rows : List DRow) : Except DErr DRow := do
   let base : DRow := groupBy.foldl (fun acc g =>
     match rows.head? >>= (rowGet · g) with
     | some v => rowSet acc g v
     | none => acc) []
-  aggs.foldlM (fun acc a => (aggValue coll env rows a.1).map (rowSet acc a.2)) base
+  aggs.foldlM (fun acc a => (aggValue X coll env rows a.1).map (rowSet acc a.2)) base
 
-def dwindow (e : DE) (env : DRow) : Except DErr Nat :=
-  match evalV env [] e with
+def dwindow (X : ExFn) (e : DE) (env : DRow) : Except DErr Nat :=
+  match evalV X env [] e with
   | .s (.int i) => if i >= 0 then .ok i.toNat else .error .syntax
   | _ => .error .syntax
 
-/-- the concrete evaluation environment of the `plan` stream -/
-def dsem : Sem DE DRow DV DErr (List DV) DAgg where
-  eval := deval
+/-- the concrete evaluation environment of the `plan` stream; `X coll` answers the EXISTS
+    subqueries of the line under the collection check `coll` -/
+def dsemX (X : (String → Nat → Option DErr) → ExFn) : Sem DE DRow DV DErr (List DV) DAgg where
+  eval coll := deval (X coll) coll
+  park coll e env r := parkV (X coll) env r e
   truth v :=
     match v with
     | .s (.bool true) => .tt
@@ -277,15 +336,22 @@ def dsem : Sem DE DRow DV DErr (List DV) DAgg where
   join l r := l ++ r
   bind env r := r.foldl (fun acc kv => rowSet acc kv.1 kv.2) env
   dkey r := r.map (·.2)
-  window := dwindow
+  window e env := dwindow (X (fun _ _ => none)) e env
   cmp := dcmp
   gkey gb r := gb.filterMap (rowGet r)
   aggCheck coll aggs env r := aggs.forM (fun a =>
     match aggArg a.1 with
     | some e => ensure coll env r e
     | none => .ok ())
-  aggFinal := aggFinalD
+  aggFinal coll := aggFinalD (X coll) coll
+  aggPark coll aggs env rows := aggs.findSome? (fun a =>
+    match aggArg a.1 with
+    | some e => rows.findSome? (fun r => parkV (X coll) env r e)
+    | none => none)
   nonBool := .runtime
+
+/-- without EXISTS-in-expression subqueries -/
+def dsem : Sem DE DRow DV DErr (List DV) DAgg := dsemX (fun _ => noEx)
 
 /-! canonical text (must agree with harness/src/streams/plan.rs `canon_row`) -/
 
